@@ -68,8 +68,9 @@ def _near(printed, value, decimals=2):
     return abs(printed - value) <= 0.5 * 10 ** (-decimals) + 1e-9
 
 
-def check_text(rec, text, cfg, remove_penalised, viol, counts):
-    """Determinant table and summary of the .pka text against the API record of AVR."""
+def check_text(rec, text, cfg, remove_penalised, viol, counts, conf="AVR"):
+    """Determinant table and summary of the .pka text against the API record of AVR (or of the conformation
+    the file was written for)."""
     parsed = obs.parse_pka_text(text)
     try:
         table = obs.parse_det_rows(parsed["det_rows"])
@@ -77,7 +78,7 @@ def check_text(rec, text, cfg, remove_penalised, viol, counts):
     except ValueError as e:
         viol.append({"cls": "text-unparsable", "msg": str(e)})
         return parsed
-    avr = rec["confs"]["AVR"]
+    avr = rec["confs"][conf]
     by_label = {}
     from .. import util as _u
     _woo = _u.parse_cfg()["write_out_order"]
@@ -149,6 +150,16 @@ def check_text(rec, text, cfg, remove_penalised, viol, counts):
         if not _near(s["pka"], g["pka"]) or not _near(s["model"], g["model_pka"]):
             viol.append({"cls": "text-summary-mismatch", "msg": "summary %s: %.2f/%.2f vs API %.4f/%.4f" % (
                 s["label"], s["pka"], s["model"], g["pka"], g["model_pka"])})
+    # every group of the average that is due a row has one, in the table and in the summary
+    nt, ns = {}, {}
+    for r in table:
+        nt[r["label"]] = nt.get(r["label"], 0) + 1
+    for s_ in summary:
+        ns[s_["label"]] = ns.get(s_["label"], 0) + 1
+    for lab, lst in by_label.items():
+        if nt.get(lab, 0) < len(lst) or ns.get(lab, 0) < len(lst):
+            viol.append({"cls": "results-group-not-in-text", "msg": "%d group(s) %r in the average (penalised groups %s); table rows %d, summary rows %d" % (
+                len(lst), lab, "removed" if remove_penalised else "kept", nt.get(lab, 0), ns.get(lab, 0))})
     tl = sorted(r["label"] for r in table)
     sl = sorted(s["label"] for s in summary)
     if tl != sl:
